@@ -23,7 +23,7 @@ BOUNDS = {
 }
 EXPECT_LABELS = {"quick": ["fnv64==reference", "fnv32==reference", "range64", "wide-model-exact", "text==bytes", "depth-prefix",
                            "depth-element-is-seeded-fnv", "every-state-is-an-initial-state", "bytes-decorator-le64", "int-decorator-chain",
-                           "md5-str==bytes", "decorator-prefix"]}
+                           "md5-str==bytes", "decorator-prefix", "pure-bytes-after-text", "pure-same-answer-again"]}
 OFF64, P64 = 14695981039346656037, 1099511628211
 OFF32, P32 = 0x811C9DC5, 0x01000193
 INV31_64 = pow(31, -1, 2 ** 64)
@@ -58,11 +58,52 @@ class SymText(str):
             yield c
 
 
+def _unpack_key(fmt, data):
+    """struct.unpack over the symbolic byte key: unsigned byte codes give the byte proxies; a signed code forks on the sign bit,
+    and a negative value leaves the wide (non-negative) model - the engine then replays that path's inputs on the real code"""
+    from .. import shims
+    from .. import engine
+    from ..engine import Unsupported
+    if not isinstance(data, BytesKey):
+        return shims.unpack_shim(fmt, data)
+    code = fmt.lstrip("<>=@!").lstrip("0123456789")
+    if code not in ("B", "b", "c") or len(fmt.lstrip("<>=@!")) - len(code) > 4:
+        raise Unsupported(f"struct.unpack({fmt!r}) over a symbolic key")
+    if code == "b":
+        import z3
+        for v in data.vals:
+            if engine.CUR.fork(z3.UGE(v.t, z3.BitVecVal(128, v.t.size()))):
+                raise Unsupported("negative byte value (signed struct code) in the non-negative wide-int model")
+    elif code == "c":
+        raise Unsupported("struct code 'c' over a symbolic key")
+    return tuple(data.vals)
+
+
+class _MemView:
+    """memoryview(key) over the symbolic byte key (cast to an unsigned / signed byte view)"""
+    def __init__(self, data):
+        if not isinstance(data, BytesKey):
+            from ..engine import Unsupported
+            raise Unsupported("memoryview of a non-key object")
+        self.data = data
+
+    def cast(self, fmt, *a):
+        return _unpack_key(f"{len(self.data)}{fmt}", self.data)
+
+    def __iter__(self):
+        return iter(self.data)
+
+    def __len__(self):
+        return len(self.data)
+
+
 def _keys(ctx, bs):
     """(bytes key, text key) for the byte values bs"""
     if ctx.sym:
         H = env.mod_hashes()
         ctx.patch(H, "ord", lambda c: c.cp if isinstance(c, SymChar) else ord(c))
+        ctx.patch(H, "unpack", _unpack_key)
+        ctx.patch(H, "memoryview", _MemView)
         return BytesKey([ctx.wide(b) for b in bs]), SymText([ctx.wide(b) for b in bs])
     raw = bytes(ctx.wide(b) for b in bs)
     return raw, raw.decode("latin-1")
@@ -113,6 +154,31 @@ def depth(ctx, cfg):
     ctx.assume(ctx.and_([b.ult(128) for b in bs]))
     rt = H.default_fnv_1a(text, d)
     ctx.check(len(rt) == d and ctx.fork(ctx.and_([ctx.same_int(a, b) for a, b in zip(res, rt)])), "text==bytes")
+    ctx.check(ctx.no_overflow(), "wide-model-exact")
+
+
+def pure(ctx, cfg):
+    """'a pure function of (key, depth)': the answer for a key does not depend on what was hashed before - in particular not on
+    the TEXT whose UTF-8 encoding is exactly this byte key (one code point 0x80..0x7FF <-> a two-byte key), nor on the depth
+    asked for in the earlier call"""
+    H = env.mod_hashes()
+    d, d0 = cfg["depth"], cfg["first_depth"]
+    b0, b1 = ctx.bv("b0", 8), ctx.bv("b1", 8)
+    ctx.assume(ctx.and_(ctx.not_(b0.ult(0xC2)), b0.ult(0xE0), ctx.not_(b1.ult(0x80)), b1.ult(0xC0)))
+    cp = ((ctx.wide(b0) & 0x1F) << 6) | (ctx.wide(b1) & 0x3F)
+    if ctx.sym:
+        _keys(ctx, [b0, b1])        # installs the shims
+        key, text = BytesKey([ctx.wide(b0), ctx.wide(b1)]), SymText([cp])
+    else:
+        key, text = bytes([ctx.wide(b0), ctx.wide(b1)]), chr(cp)
+    first, second = (text, key) if cfg["text_first"] else (key, text)
+    r1 = H.default_fnv_1a(first, d0)
+    r2 = H.default_fnv_1a(second, d)
+    r3 = H.default_fnv_1a(first, d)
+    rb = r2 if cfg["text_first"] else r3
+    ctx.check(len(rb) == d and ctx.fork(ctx.and_([ctx.narrow(r, 64).eq(ref_fnv(ctx, [b0, b1], ctx.bvconst(i, 70), OFF64, P64, 64))
+                                                    for i, r in enumerate(rb)])), "pure-bytes-after-text")
+    ctx.check(len(r3) == d and len(r1) == d0 and ctx.fork(ctx.and_([ctx.same_int(a, b) for a, b in zip(r1, r3)])), "pure-same-answer-again")
     ctx.check(ctx.no_overflow(), "wide-model-exact")
 
 
@@ -247,7 +313,7 @@ def int_decorator(ctx, cfg):
 
 
 HARNESS = {"c18.fnv": fnv, "c18.depth": depth, "c18.surjective": surjective, "c18.bytes_decorator": bytes_decorator,
-           "c18.shipped_digest": shipped_digest, "c18.int_decorator": int_decorator}
+           "c18.shipped_digest": shipped_digest, "c18.int_decorator": int_decorator, "c18.pure": pure}
 
 
 def jobs(tier):
@@ -258,6 +324,10 @@ def jobs(tier):
     for n in (0, 1, 2, 4) if tier == "quick" else (0, 1, 2, 4, 8):
         for d in (1, 2, 3):
             js.append({"h": "c18.depth", "cfg": {"len": n, "depth": d}, "opts": {"cost": 2 ** n * d}})
+    for d in (1, 2, 3):
+        for d0 in (1, 2, 3):
+            for tf in (False, True):
+                js.append({"h": "c18.pure", "cfg": {"depth": d, "first_depth": d0, "text_first": tf}})
     for d in (1, 2, 3):
         js.append({"h": "c18.bytes_decorator", "cfg": {"depth": d}})
         js.append({"h": "c18.bytes_decorator", "cfg": {"depth": d, "size": 8}})
